@@ -223,8 +223,9 @@ def run_grammar(job):
                          'sentences can be parsed: start=%s prods=%s smart=%s' % (start, prods, smart),
                          {'g': gdesc, 'smart': smart, 'kw': kw, 'kind': 'ctor'}, []))
     # C02: both smart_factorization settings must treat a conflict-free grammar alike
-    if case['ll1'] and not case['leftrec'] and len(ctor) == 2 and ctor[True] != ctor[False] and 'ok' in ctor.values():
-        viol.append(('C02', 'conflict-free (LL(1)) grammar: constructor gives %s with smart_factorization=True and %s with False: '
+    conflict_free = case['ll1'] or any(not p.is_ambiguous() for p in parsers.values())
+    if conflict_free and not case['leftrec'] and len(ctor) == 2 and ctor[True] != ctor[False] and 'ok' in ctor.values():
+        viol.append(('C02', 'conflict-free grammar (is_ambiguous() is False for the setting that works): constructor gives %s with smart_factorization=True and %s with False: '
                      'start=%s prods=%s' % (ctor[True], ctor[False], start, prods),
                      {'g': gdesc, 'smart': True, 'kw': kw, 'kind': 'ctor'}, []))
     n = 0
